@@ -202,7 +202,8 @@ def post_to_crs(args, kw, res, exc, snap):
                 worst = max(worst, float(d.max()))
     densified = src_geom is not g
     _mon.check(worst <= 1e-12, "Geometry.to_crs", lambda: wit({"why": "vertex not where the projection library maps it", "max_rel_diff": worst}), key="to_crs-vertex",
-               cls=("densified|" if densified else "") + g.geom_type, sig=hsig("t", g.wkb, str(self.crs), str(target), resolution), sample=wit())
+               cls=("custom-crs|" if ("+proj" in str(self.crs) or "+proj" in str(target)) else "") + ("densified|" if densified else "") + g.geom_type,
+               sig=hsig("t", g.wkb, str(self.crs), str(target), resolution), sample=wit())
     _mon.obs["to_crs_bit_identical" if worst == 0 else "to_crs_within_1e-12"] += 1
 
 
@@ -364,6 +365,35 @@ def drive_to_crs(mon: Monitor, rng: random.Random, n: int) -> None:
         call(G.Geometry(shp, None).to_crs, "EPSG:3857")
 
 
+LOOKALIKES = gen.LOOKALIKES
+
+
+def drive_lookalikes(mon: Monitor, rng: random.Random, n: int) -> None:
+    """Distinct CRSs that resemble each other, both reprojected to/from the same third CRS in one process (every call is judged by post_to_crs)."""
+    from odc.geo import geom as G
+    from odc.geo.crs import CRS
+    import shapely.ops
+
+    for _ in range(n):
+        custom, reg, win = rng.choice(LOOKALIKES)
+        other = rng.choice(["EPSG:4326", "EPSG:4326", "EPSG:3857"])
+        size = rng.choice([0.01, 0.1, 0.5])
+        lon, lat = rng.uniform(win[0] + 2 * size, win[2] - 2 * size), rng.uniform(win[1] + 2 * size, win[3] - 2 * size)
+        shp_ll = make_shape(rng, rng.choice(KINDS[:9]), (lon, lat), size / 3)
+        if other == "EPSG:4326":
+            g = G.Geometry(shp_ll, other)
+        else:
+            tr = gen.transformer("EPSG:4326", other)
+            g = G.Geometry(shapely.ops.transform(lambda x, y, z=None: tr.transform(x, y), shp_ll), other)
+        order = [custom, reg] if rng.random() < 0.5 else [reg, custom]
+        # fresh CRS objects half of the time: the caches must not care which object spells the CRS
+        for c in order:
+            target = CRS(c) if rng.random() < 0.5 else c
+            out, exc = call(g.to_crs, target)
+            if exc is None and not out.is_empty:
+                call(out.to_crs, other)
+
+
 def drive_indirect(mon: Monitor, rng: random.Random, n: int) -> None:
     before = dict(calls)
     for _ in range(n):
@@ -386,11 +416,12 @@ def run(mon: Monitor, tier: str, seed: int, shard: int, nshards: int) -> None:
         q = tier == "quick"
         drive_densify(mon, rng, 5000 if q else 60000)
         drive_to_crs(mon, rng, 2500 if q else 40000)
+        drive_lookalikes(mon, rng, 150 if q else 2500)
         drive_indirect(mon, rng, 40 if q else 500)
         for pt, n in [("densify", 2000), ("Geometry.segmented", 2000), ("Geometry.to_crs", 1000), ("roundtrip", 200), ("densify|on-axis|vertical", 20), ("densify|far", 200),
                       ("densify|near-axis", 50), ("Geometry.to_crs|same-crs", 20), ("Geometry.to_crs|no-crs", 10), ("roundtrip|datum-shift", 20), ("roundtrip|same-datum", 100),
                       ("Geometry.to_crs|densified|Polygon", 10), ("Geometry.to_crs|MultiPolygon", 20), ("Geometry.to_crs|GeometryCollection", 20), ("Geometry.segmented|Polygon", 100),
-                      ("Geometry.segmented|LinearRing", 50), ("Geometry.segmented|GeometryCollection", 50)]:
+                      ("Geometry.segmented|LinearRing", 50), ("Geometry.to_crs|custom-crs|Polygon", 15), ("Geometry.segmented|GeometryCollection", 50)]:
             mon.floor(pt, n)
     finally:
         detach_all()
